@@ -191,10 +191,11 @@ func (f *File) register(path string) string {
 		alias = true
 	}
 
-	// If the name is invalid or has been registered already, make it unique by appending a number
+	// If the name is invalid or has been registered already, make it unique by appending a number.
+	// The name must also be free in the form it will be registered in (with the package prefix).
 	unique := name
 	i := 0
-	for !f.isValidAlias(unique) {
+	for !f.isValidAlias(unique) || !f.isValidAlias(f.prefixed(unique, alias || unique != name)) {
 		i++
 		unique = fmt.Sprintf("%s%d", name, i)
 	}
@@ -205,14 +206,21 @@ func (f *File) register(path string) string {
 	}
 
 	// Only add a prefix if the name is an alias
-	if f.PackagePrefix != "" && alias {
-		unique = f.PackagePrefix + "_" + unique
-	}
+	unique = f.prefixed(unique, alias)
 
 	// Register the eventual name
 	f.imports[path] = importdef{name: unique, alias: alias}
 
 	return unique
+}
+
+// prefixed returns the name an import is registered under: aliases get the package prefix, but a
+// dot-import is never prefixed.
+func (f *File) prefixed(name string, alias bool) string {
+	if f.PackagePrefix != "" && alias && name != "." {
+		return f.PackagePrefix + "_" + name
+	}
+	return name
 }
 
 // GoString renders the File for testing. Any error will cause a panic.
